@@ -5,7 +5,7 @@
 REPO=${1:-/repo}; shift 2>/dev/null
 S=$(mktemp -d /tmp/vk_repo_copy.XXXXXX)
 rsync -a --exclude .git "$REPO"/ "$S"/
-cd "$S" && PYTHONDONTWRITEBYTECODE=1 PYTHONPATH="$S/src:/verif/shims" /venv/bin/python -m pytest -q -p no:cacheprovider -x -n 14 "$@" 2>&1 | tail -15
+cd "$S" && PYTHONHASHSEED=0 PYTHONDONTWRITEBYTECODE=1 PYTHONPATH="$S/src:/verif/shims" /venv/bin/python -m pytest -q -p no:cacheprovider -x -n 14 "$@" 2>&1 | tail -15
 rc=$?
 cd / && rm -rf "$S"
 exit $rc
